@@ -68,8 +68,8 @@ class RigLoop(VirtualTimeLoop):
 class Rig:
     """one listener under test + the line writer"""
 
-    def __init__(self, loop: RigLoop) -> None:
-        from async_upnp_client import advertisement, search, ssdp
+    def __init__(self, loop: RigLoop, cbs: str = "both") -> None:
+        from async_upnp_client import advertisement, search, ssdp, ssdp_listener
         from async_upnp_client.ssdp_listener import SsdpDeviceTracker, SsdpListener
 
         self.loop = loop
@@ -77,14 +77,21 @@ class Rig:
         self.lines: List[str] = []
         self.ids: Dict[str, int] = {}
         self.tags: set = set()
-        self._mods = (advertisement, search, ssdp)
-        self._saved = (advertisement.get_ssdp_socket, search.get_ssdp_socket, ssdp.datetime)
+        self._mods = (advertisement, search, ssdp, ssdp_listener)
+        self._saved = (advertisement.get_ssdp_socket, search.get_ssdp_socket, ssdp.datetime, ssdp_listener.datetime)
         rig = self
 
-        class FakeNow:
-            @staticmethod
-            def now(tz=None):
+        class FakeNow(datetime):
+            """the wall clock of both modules: local time is the virtual clock; UTC lies 9 h behind (so that a
+            library that confuses the two is seen)"""
+
+            @classmethod
+            def now(cls, tz=None):
                 return BASE + rig.now_us * US
+
+            @classmethod
+            def utcnow(cls):
+                return BASE + rig.now_us * US - timedelta(hours=9)
 
         def fake_socket(source, target):
             return _Sock(("192.168.1.2", 1900)), source, target
@@ -92,13 +99,18 @@ class Rig:
         advertisement.get_ssdp_socket = fake_socket
         search.get_ssdp_socket = fake_socket
         ssdp.datetime = FakeNow
+        ssdp_listener.datetime = FakeNow
         self.tracker = SsdpDeviceTracker()
-        self.listener = SsdpListener(async_callback=self._acb, callback=self._cb, device_tracker=self.tracker, loop=loop)
+        kw = {"both": dict(async_callback=self._acb, callback=self._cb), "sync": dict(callback=self._cb),
+              "async": dict(async_callback=self._acb)}[cbs]
+        self.listener = SsdpListener(device_tracker=self.tracker, loop=loop, **kw)
+        self.lines.append(f"mode {cbs}")
+        self.tags.add(f"cbs:{cbs}")
         self.captured: Optional[Tuple] = None
 
     def restore(self) -> None:
-        advertisement, search, ssdp = self._mods
-        advertisement.get_ssdp_socket, search.get_ssdp_socket, ssdp.datetime = self._saved
+        advertisement, search, ssdp, ssdp_listener = self._mods
+        advertisement.get_ssdp_socket, search.get_ssdp_socket, ssdp.datetime, ssdp_listener.datetime = self._saved
 
     async def start(self) -> None:
         await self.listener.async_start()
@@ -175,7 +187,7 @@ class Rig:
             orig(request_line, headers)
         return on_data
 
-    async def packet(self, sock: str, ts_us: int, data: bytes, addr: tuple) -> None:
+    async def packet(self, sock: str, ts_us: int, data: bytes, addr: tuple, sent: Optional[List[List[str]]] = None) -> None:
         self.now_us = ts_us
         self.captured = None
         try:
@@ -185,15 +197,33 @@ class Rig:
             self.tags.add(f"exc:{type(e).__name__}")
         for _ in range(3):
             await asyncio.sleep(0)
-        if self.captured is None:
+        if self.captured is None and sent is not None:
+            # the harness knows what it sent: a well-formed SSDP message that never reached `_on_data` is judged as the
+            # message it is (headers as built, plus the receive time and the udn of a uuid USN), not as noise
+            pairs = [[k.strip(), v.strip()] for k, v in sent] + [["_timestamp", str(ts_us)]]
+            usn = next((v.strip() for k, v in sent if k.strip().lower() == "usn"), "")
+            if usn.lower().startswith("uuid:"):
+                pairs.append(["_udn", usn.partition("::")[0]])
+            toks = [f"{self.sid(k)}={self.sid(v)}" for k, v in pairs]
+            self.lines.append(f"lost {sock} {ts_us} {' '.join(toks)}")
+            self.tags.add("ev:lost")
+        elif self.captured is None:
             self.lines.append(f"drop {ts_us}")
             self.tags.add("ev:drop")
         else:
             self.lines.append(f"post {self.look(*self.captured)}")
         self.lines.append(self.snap())
 
-    async def purge(self, ts_us: int) -> None:
-        self.tracker.purge_devices(BASE + ts_us * US)
+    async def purge(self, ts_us: int, wall: bool = False) -> None:
+        if wall:  # the no-argument form applications call: "purge now" (wall clock = the virtual clock)
+            self.now_us = ts_us
+            try:
+                self.tracker.purge_devices()
+            except Exception as e:  # noqa: BLE001
+                self.lines.append(f"exc {type(e).__name__}")
+            self.tags.add("ev:purge-wallclock")
+        else:
+            self.tracker.purge_devices(BASE + ts_us * US)
         self.lines.append(f"purge {ts_us}")
         self.lines.append(self.snap())
         self.tags.add("ev:purge")
@@ -203,13 +233,13 @@ def build_packet(first_line: str, headers: List[List[str]]) -> bytes:
     return (first_line + "\r\n" + "".join(f"{k}:{v}\r\n" for k, v in headers) + "\r\n").encode()
 
 
-def run_ops(ops: List[Any]) -> Tuple[List[str], List[str]]:
+def run_ops(ops: List[Any], cbs: str = "both") -> Tuple[List[str], List[str]]:
     """run one history on a fresh listener; returns (lines, tags)"""
     loop = RigLoop()
     asyncio.set_event_loop(loop)
     rig = None
     try:
-        rig = Rig(loop)
+        rig = Rig(loop, cbs)
 
         async def go():
             await rig.start()
@@ -217,13 +247,15 @@ def run_ops(ops: List[Any]) -> Tuple[List[str], List[str]]:
                 if op[0] == "pkt":
                     _, sock, ts, first, hdrs, addr = op
                     rig.tags.add(f"ev:{op_kind(op)}")
-                    await rig.packet(sock, int(ts), build_packet(first, hdrs), tuple(addr))
+                    await rig.packet(sock, int(ts), build_packet(first, hdrs), tuple(addr), sent=hdrs)
                 elif op[0] == "raw":
                     _, sock, ts, hexdata, addr = op
                     rig.tags.add("ev:raw")
                     await rig.packet(sock, int(ts), bytes.fromhex(hexdata), tuple(addr))
                 elif op[0] == "purge":
                     await rig.purge(int(op[1]))
+                elif op[0] == "purge0":
+                    await rig.purge(int(op[1]), wall=True)
             return rig.lines
 
         lines = loop.run_until_complete(go())
@@ -248,7 +280,7 @@ def op_kind(op) -> str:
 
 
 def run_recipe(ctx: Optional[Ctx], recipe: Dict[str, Any], cid: str) -> Case:
-    lines, tags = run_ops(recipe["ops"])
+    lines, tags = run_ops(recipe["ops"], recipe.get("cbs", "both"))
     nontrivial = any(ln.startswith("cb ") for ln in lines) and sum(1 for ln in lines if ln.startswith("snap ")) >= 2
     return Case(cid, lines, recipe, nontrivial, tags)
 
@@ -268,16 +300,21 @@ GOOD_LOCS = [
     ("http://[2001:db8::10]:80/desc.xml", ADDR6),
     ("http://[fe80::1]:80/desc.xml", ADDR6LL),     # adjusted to [fe80::1%3] by get_adjusted_url
     ("https://tv.example:443/d", ADDR4),             # no ip version
-    ("http://127.0.0.2:80/desc.xml", ADDR4),         # accepted by the code (DESIGN §7 out-of-domain note)
+    ("http://[::ffff:10.2.3.4]:80/m", ADDR6),         # embedded IPv4 (IPv4-mapped, not loopback / link-local)
     ("http://[2001:db8::11]/x", ADDR6),
     ("http://[2001:db8:0:1:2:3:4:5]:8080/full", ADDR6),   # full form
     ("http://[1:2:3:4:5:6:7::]/t", ADDR6),                # trailing ::
     ("http://[::2:3]/l", ADDR6),                          # leading ::
-    ("http://[1::2:3:4:5:6:7:8]/bad", ADDR6),             # 8 hextets with :: -> ip_address refuses -> no ip version
 ]
+# locations the LIBRARY accepts (they start with "http" and contain none of its three substrings) but the property text
+# forbids or cannot read as an http(s) URL with a host: open finding F03a / F04a.  Only used in dedicated histories.
+TEXT_BAD_LOCS = ["http://127.0.0.2:80/d", "http://user@127.0.0.1/d", "http://[0:0:0:0:0:0:0:1]/d", "http://[::0001]/d",
+                 "http://localhost/d", "http://user@169.254.7.7/d", "http://[::ffff:169.254.7.7]/d", "httpx://192.168.1.7/d",
+                 "http-but-not-a-url", "http://[fe80::1/", "http://127.9.9.9:1/", "http://[::ffff:127.0.0.1]/", "http:///nohost",
+                 "http://[1::2:3:4:5:6:7:8]/bad"]   # the last: 8 hextets with `::` — ip_address refuses, urlsplit raises
 BAD_LOCS = ["http://127.0.0.1:80/d", "http://[::1]:80/d", "http://169.254.7.7/d", "ftp://192.168.1.10/d", "", "xhttp://192.168.1.10/",
             "HTTP://192.168.1.10/"]
-CACHE = [None, "max-age=1", "max-age=5", "max-age=1800", "max-age = 5", "MAX-AGE=7", "no-cache", "max-age=0",
+CACHE = [None, "max-age=1", "max-age=5", "max-age=1800", "max-age=3600", "max-age=7200", "max-age=86400", "max-age=1000000", "max-age = 5", "MAX-AGE=7", "no-cache", "max-age=0",
          "public, max-age=30", "max-age=", "xmax-age=4, max-age=9", "max-age=007", "max-age=12abc", "Max-Age \t= \t3, x",
          "no-store, MAX-AGE=2;q", "m=1, ma=2, max-age-x=3"]
 # saturation (C02's fixes): 10 digits (representable), 12 digits (valid_to beyond datetime.max), the timedelta boundary,
@@ -285,11 +322,12 @@ CACHE = [None, "max-age=1", "max-age=5", "max-age=1800", "max-age = 5", "MAX-AGE
 HUGE = ["max-age=9999999999", "max-age=999999999999", "max-age=86399999999999", "max-age=86400000000000",
         "max-age=" + "7" * 20, "max-age=" + "1" * 4301, "max-age=" + "0" * 4300 + "5", "max-age=" + "0" * 4299 + "5",
         "max-age=251824463999", "max-age=251824464000"]
-GAPS_S = [0, 0, 1, 1, 4, 6, 2000, -1, 899, 900, 901, 5, 7, 30, 1799, 1801, -5]
+GAPS_S = [0, 0, 1, 1, 4, 6, 2000, -1, 899, 900, 901, 5, 7, 30, 1799, 1801, -5, 3000, 5000, 50000, 900000]
 EXTRA = [
     [], [["BOOTID.UPNP.ORG", "1"]], [["BOOTID.UPNP.ORG", "2"]], [["Bootid.upnp.org", "1"]], [["bootid.upnp.org", "2"]],
     [["CONFIGID.UPNP.ORG", "7"]], [["CONFIGID.UPNP.ORG", "8"], ["BOOTID.UPNP.ORG", "1"]],
-    [["X-Custom", "a"]], [["x-custom", "b"]], [["SERVER", "Linux UPnP/1.0 x/1"]], [["SERVER", "other/2"]],
+    [["X-Custom", "a"]], [["x-custom", "b"]], [["X-Custom", "abc"]], [["X-Custom", "ABC"]], [["x-custom", "Abc"]],
+    [["X-Custom", "abc "]], [["X-Custom", "abcd"]], [["BOOTID.UPNP.ORG", "1 "]], [["CONFIGID.UPNP.ORG", "A7"]], [["CONFIGID.UPNP.ORG", "a7"]], [["SERVER", "Linux UPnP/1.0 x/1"]], [["SERVER", "other/2"]],
     [["DATE", "Mon, 01 Jan 2020 00:00:00 GMT"]], [["DATE", "Tue"]], [["_private", "1"]], [["_private", "2"]],
     [["EXT", ""]], [["HOST", "239.255.255.250:1900"]],
 ]
@@ -338,7 +376,9 @@ def rand_valid(rng, ts, udns=UDNS, types=TYPES):
     udn = rng.choice(udns)
     ty = rng.choice(types)
     loc, addr = rng.choice(GOOD_LOCS[:4]) if rng.random() < 0.8 else rng.choice(GOOD_LOCS)
-    cache = rng.choice(CACHE[:4]) if rng.random() < 0.7 else rng.choice(CACHE)
+    if rng.random() < 0.08:
+        ty = udn  # the UDA device advertisement: NT / ST uuid:<device-UUID> with the bare USN uuid:<device-UUID>
+    cache = rng.choice(CACHE[:8]) if rng.random() < 0.7 else rng.choice(CACHE)
     if rng.random() < 0.04:
         cache = rng.choice(HUGE)
     extra = rng.choice(EXTRA[:7]) if rng.random() < 0.7 else rng.choice(EXTRA)
@@ -372,9 +412,9 @@ def rand_invalid(rng, ts):
     if c == 4:
         return mk_notify(ts, nts, udn, None, loc, addr, cache, [["USN", udn]])    # no NT
     if c == 5:
-        return mk_search(ts, udn, ty, rng.choice(BAD_LOCS), addr, cache, [])
+        return mk_search(ts, udn, ty, rng.choice(BAD_LOCS), ADDR4, cache, [])  # not from a scoped sender: see f03a_history
     if c == 6:
-        return mk_notify(ts, nts, udn, ty, rng.choice(BAD_LOCS), addr, cache, [])
+        return mk_notify(ts, nts, udn, ty, rng.choice(BAD_LOCS), ADDR4, cache, [])
     if c == 7:
         return mk_search(ts, udn, ty, None, addr, cache, [])                       # no LOCATION
     if c == 8:
@@ -415,11 +455,61 @@ def rand_history(rng, n: int, p_invalid=0.15, p_purge=0.12, udns=UDNS, types=TYP
         ts = clamp(ts + gap)
         r = rng.random()
         if r < p_purge:
-            ops.append(["purge", ts])
+            ops.append([rng.choice(["purge", "purge0"]), ts])
         elif r < p_purge + p_invalid:
             ops.append(rand_invalid(rng, ts))
         else:
             ops.append(rand_valid(rng, ts, udns, types))
+    return ops
+
+
+def many_devices_history(rng, ndev: int) -> List[Any]:
+    """`ndev` devices (UDNs from a counter) announced within seconds of each other with a long max-age, then a few
+    purges / refreshes / byebyes while all of them are still valid: every one must stay known"""
+    ts = 0
+    ops = []
+    for i in range(ndev):
+        ts += rng.choice([0, 0, 1]) * SEC
+        udn = f"uuid:many-{i:04d}"
+        loc = f"http://10.{i // 250}.{i % 250}.7:80/d"
+        addr = [f"10.{i // 250}.{i % 250}.7", 1900]
+        cache = rng.choice(["max-age=1800", "max-age=3600", None])
+        if rng.random() < 0.5:
+            ops.append(mk_search(ts, udn, TYPES[0], loc, addr, cache, []))
+        else:
+            ops.append(mk_notify(ts, "ssdp:alive", udn, TYPES[0], loc, addr, cache, []))
+    for _ in range(6):
+        ts += rng.choice([1, 30, 200]) * SEC
+        i = rng.randrange(ndev)
+        c = rng.randrange(4)
+        if c == 0:
+            ops.append([rng.choice(["purge", "purge0"]), ts])
+        elif c == 1:
+            ops.append(mk_notify(ts, "ssdp:byebye", f"uuid:many-{i:04d}", TYPES[0], None, [f"10.{i // 250}.{i % 250}.7", 1900], None, []))
+        else:
+            ops.append(mk_search(ts, f"uuid:many-{i:04d}", TYPES[0], f"http://10.{i // 250}.{i % 250}.7:80/d",
+                                 [f"10.{i // 250}.{i % 250}.7", 1900], "max-age=1800", []))
+    return ops
+
+
+def f03a_history(rng) -> List[Any]:
+    """one or two messages whose location the library accepts and the text forbids (open finding F03a / F04a)"""
+    ts = rng.randrange(0, 5) * SEC
+    loc = rng.choice(TEXT_BAD_LOCS)
+    addr = ADDR4
+    if rng.random() < 0.15:
+        # an IPv4 link-local location announced by a scoped IPv6 sender is rewritten by get_adjusted_url to
+        # http://[169.254.7.7%3]/d, which no longer contains the substring "://169.254" and is accepted
+        loc, addr = "http://169.254.7.7/d", ADDR6LL
+    udn = rng.choice(UDNS)
+    ty = rng.choice(TYPES)
+    ops = []
+    if rng.random() < 0.5:
+        ops.append(mk_search(ts, rng.choice(UDNS), ty, *GOOD_LOCS[0], "max-age=1800", []))
+    if rng.random() < 0.5:
+        ops.append(mk_search(ts + SEC, udn, ty, loc, addr, "max-age=1800", []))
+    else:
+        ops.append(mk_notify(ts + SEC, rng.choice(["ssdp:alive", "ssdp:update"]), udn, ty, loc, addr, "max-age=1800", []))
     return ops
 
 
@@ -506,6 +596,20 @@ CORPUS += [
              mk_search(0, UDNS[2], TYPES[0], *GOOD_LOCS[2], "max-age=251824463999", []),
              mk_search(1, UDNS[3], TYPES[0], *GOOD_LOCS[1], "max-age=251824463999", []),
              ["purge", TMAX - 1], ["purge", TMAX]]},
+    # the same datagram twice (audit C03-4): the second one refreshes the validity (seen at 3 with max-age 5 -> valid to 8)
+    {"ops": [mk_search(0, UDNS[0], TYPES[0], *GOOD_LOCS[0], "max-age=5", []),
+             mk_search(3 * SEC, UDNS[0], TYPES[0], *GOOD_LOCS[0], "max-age=5", []), ["purge", 6 * SEC],
+             mk_notify(7 * SEC, "ssdp:update", UDNS[0], TYPES[0], *GOOD_LOCS[0], "max-age=5", []),
+             mk_notify(8 * SEC, "ssdp:update", UDNS[0], TYPES[0], *GOOD_LOCS[0], "max-age=5", []), ["purge0", 12 * SEC]]},
+    # URLs on which the URL layer of the model once differed from ip_version_from_location (found by the C02 engineer):
+    # embedded IPv4, TAB inside the URL (urlsplit removes it), both as second locations of a device known at IPv6 / IPv4
+    {"ops": [mk_search(0, UDNS[0], TYPES[0], "http://[2001:db8::10]:80/desc.xml", ADDR6, "max-age=1800", []),
+             mk_search(1 * SEC, UDNS[0], TYPES[0], "http://[::ffff:10.2.3.4]/", ADDR6, "max-age=1800", []),
+             mk_search(2 * SEC, UDNS[0], TYPES[0], "http://[fe80::1\t]/", ADDR6, "max-age=1800", []),
+             mk_search(3 * SEC, UDNS[0], TYPES[0], "http://[fe80::1]:80/a\tb", ADDR6, "max-age=1800", []),
+             mk_search(4 * SEC, UDNS[1], TYPES[0], "http://192.168.1.10:80/desc.xml", ADDR4, "max-age=1800", []),
+             mk_search(5 * SEC, UDNS[1], TYPES[0], "http://[::ffff:10.2.3.4]/", ADDR6, "max-age=1800", []),
+             mk_search(6 * SEC, UDNS[1], TYPES[0], "http://u:p@192.168.1.12:80/x", ADDR4, "max-age=1800", [])]},
     # timestamps at datetime.min, equal and backwards
     {"ops": [mk_search(TMIN, UDNS[0], TYPES[0], *GOOD_LOCS[0], "max-age=5", []),
              mk_search(TMIN, UDNS[1], TYPES[0], *GOOD_LOCS[1], None, []),
